@@ -155,7 +155,7 @@ def post_obligations(I, c, o, entry_env, fi):
                 if r.when is not None:
                     a = z3.And(a, I.spec_bool_old(st, r.when, entry_env))
                 alts.append(a)
-            I.oblige(st, "raises-only", z3.Or(alts) if alts else z3.BoolVal(False), kind="raises", extra=_exprs(st, entry_env, None, exc))
+            I.oblige(st, "raises-only", z3.Or(alts) if alts else z3.BoolVal(False), kind="raises", extra=_exprs(st, entry_env, None, exc), site_env={"exc": exc})
         for r in c.raises_l:
             if r.ensures is not None:
                 classes = [I.w.resolve_class(x) for x in r.classes]
